@@ -433,19 +433,48 @@ func loopPos(b *ssa.BasicBlock) token.Pos {
 func (x *X) envAt(fr *frame, li *loopInfo, phiVals map[*ssa.Phi]Val) *Env {
 	pkg := pkgOf(fr.fn)
 	env := &Env{vars: map[string]TV{}, pkg: pkg, old: x.entryState}
-	// named values from debug refs that dominate the header (outside the loop)
+	// named values (debug refs and named phis) of the blocks that dominate the header, outside the
+	// loop, from the entry towards the header: the definition closest to the header wins
+	var doms []*ssa.BasicBlock
 	for _, b := range fr.fn.Blocks {
 		if li != nil && (li.blocks[b.Index] || !b.Dominates(li.header)) {
 			continue
 		}
+		if li == nil {
+			continue
+		}
+		doms = append(doms, b)
+	}
+	depth := func(b *ssa.BasicBlock) int {
+		d := 0
+		for x := b; x != nil; x = x.Idom() {
+			d++
+		}
+		return d
+	}
+	sort.SliceStable(doms, func(i, j int) bool { return depth(doms[i]) < depth(doms[j]) })
+	for _, b := range doms {
 		for _, in := range b.Instrs {
-			if dr, ok := in.(*ssa.DebugRef); ok && !dr.IsAddr {
-				if id, ok := dr.Expr.(interface{ String() string }); ok {
-					_ = id
+			switch in := in.(type) {
+			case *ssa.Phi:
+				if in.Comment != "" && in.Comment != "rangeindex" {
+					if v, ok := fr.vals[in]; ok {
+						env.vars[in.Comment] = TV{v, in.Type()}
+					}
 				}
-				if v, ok := fr.vals[dr.X]; ok {
-					if name := debugName(dr); name != "" {
-						env.vars[name] = TV{v, dr.X.Type()}
+			case *ssa.DebugRef:
+				if !in.IsAddr {
+					if v, ok := fr.vals[in.X]; ok {
+						if name := debugName(in); name != "" {
+							env.vars[name] = TV{v, in.X.Type()}
+						}
+					} else if c, isConst := in.X.(*ssa.Const); isConst {
+						if name := debugName(in); name != "" {
+							func() {
+								defer func() { recover() }()
+								env.vars[name] = TV{x.constVal(c), c.Type()}
+							}()
+						}
 					}
 				}
 			}
@@ -831,6 +860,32 @@ func (x *X) appendVC(fr *frame, in ssa.Instruction, c *ssa.CallCommon, args []Va
 	if !ok {
 		unsup("append of elements of type %s", el)
 	}
+	// append(s, x1, ..., xN) with a literal argument list: the N new elements are written with
+	// plain stores; only the copy into a grown array needs a quantified fact (about a fresh row).
+	if nconst := varargsLen(c); nconst > 0 && nconst <= 4 && tstr == "" {
+		for _, lf := range ls {
+			key := "E:" + typeKey(el) + lf.key
+			srt := arr2Sort(lf.sort)
+			old := x.heapCur(key, srt)
+			x.touched[key], x.written[key] = true, true
+			row := x.sc.Fresh("grown.row", arrSort(lf.sort))
+			x.sc.Assert(fmt.Sprintf("(forall ((j Int)) (! (=> (and (<= 0 j) (< j %s)) (= (select %s j) (select (select %s %s) (+ %s j)))) :pattern ((select %s j))))", s.Len, row, old, s.Arr, s.Off, row))
+			// explicit instance at the points is added below through a registered fact
+			base := ite(inplace, "(select "+old+" "+s.Arr+")", row)
+			for i := 0; i < nconst; i++ {
+				v := fmt.Sprintf("(select (select %s %s) (+ %s %d))", old, t.Arr, t.Off, i)
+				base = fmt.Sprintf("(store %s (+ %s %s %d) %s)", base, res.Off, s.Len, i, v)
+			}
+			x.st.heap[key] = x.define("app."+key, srt, fmt.Sprintf("(store %s %s %s)", old, res.Arr, base))
+			// instantiation of the copy fact at the collected points
+			x.sc.n++
+			fn := fmt.Sprintf("rowcopy!%d", x.sc.n)
+			x.sc.add(fmt.Sprintf("(define-fun %s ((j Int)) Bool (= (select %s j) (select (select %s %s) (+ %s j))))", fn, row, old, s.Arr, s.Off))
+			x.quants = append(x.quants, quant{guard: "true", fn: fn, lo: "0", hi: s.Len, line: len(x.sc.lines)})
+		}
+		x.bumpHeapVersion("append")
+		return res
+	}
 	for _, lf := range ls {
 		key := "E:" + typeKey(el) + lf.key
 		srt := arr2Sort(lf.sort)
@@ -996,15 +1051,21 @@ func verifyFuncFiltered(prog *Prog, specs *Specs, fn *ssa.Function, tier string,
 	x.polarity = 1
 	old := x.st.clone()
 	x.entryState = old
-	ret := x.execFunc(fn, args, free)
 	env.old = old
-	bindResult(env, ret, resultType(fn.Signature))
-	for i, e := range fs.Ensures {
-		if x.st.cond == "false" {
-			break
+	if len(fs.Ensures) > 0 {
+		x.retHook = func(v Val) {
+			renv := env.child()
+			bindResult(renv, v, resultType(fn.Signature))
+			save := x.st
+			x.st = save.clone()
+			for i, e := range fs.Ensures {
+				x.oblige("post", fmt.Sprintf("ensures %d: %s", i+1, e), fn.Pos(), x.evalBool(renv, e))
+			}
+			x.st = save
 		}
-		x.oblige("post", fmt.Sprintf("ensures %d: %s", i+1, e), fn.Pos(), x.evalBool(env, e))
 	}
+	x.execFunc(fn, args, free)
+	x.retHook = nil
 	if c != nil {
 		c.mu.Lock()
 		c.fns[name+" (verification conditions)"] = true
@@ -1164,4 +1225,25 @@ func closureTargets(v ssa.Value, seen map[ssa.Value]bool) ([]*ssa.Function, bool
 		return out, true
 	}
 	return nil, false
+}
+
+// varargsLen: the second argument of append is a slice of a freshly allocated
+// array of constant length (what `append(s, a, b)` compiles to); 0 otherwise.
+func varargsLen(c *ssa.CallCommon) int {
+	if len(c.Args) != 2 {
+		return 0
+	}
+	sl, ok := c.Args[1].(*ssa.Slice)
+	if !ok || sl.Low != nil || sl.High != nil {
+		return 0
+	}
+	al, ok := sl.X.(*ssa.Alloc)
+	if !ok {
+		return 0
+	}
+	at, ok := al.Type().(*types.Pointer).Elem().Underlying().(*types.Array)
+	if !ok {
+		return 0
+	}
+	return int(at.Len())
 }
